@@ -1,8 +1,15 @@
 //! The simulator's own GF(256) model (polynomial 0x12D, alpha = 2).
 //!
-//! Used ONLY to aim faults (`cw_cancel`, `cw_aligned`) and to label runs for the
-//! reach probes; never as an oracle. If it were wrong the algebraic faults would
-//! degrade to random ones (visible in the probes) but could not raise an alarm.
+//! Used to aim faults (`cw_cancel`, `cw_aligned`) and to label runs for the reach
+//! probes - if it were wrong the algebraic faults would degrade to random ones
+//! (visible in the probes) but could not raise an alarm - and, since round 23, as a
+//! small executable REFERENCE MODEL of the error decoder (`bd_decode_block`, a
+//! textbook Berlekamp-Massey bounded-distance decoder). The model's answer is
+//! never believed as it stands: the executor accepts it as the premise of C03 only
+//! after checking, with the crate's own `encode_error` (the property's definition
+//! of "codeword"), that the word it proposes IS a codeword, and by counting that it
+//! differs from the received word in at most floor(k/2) places per block. A wrong
+//! model can therefore only lose premises, not raise an alarm.
 
 pub struct Gf {
     pub exp: [u8; 512],
@@ -265,5 +272,91 @@ impl Gf {
             }
         }
         self.det(&m, v)
+    }
+
+    /// Reference model: bounded-distance decoding of one block (`word_hi_first`, k EC codewords at its end) by
+    /// Berlekamp-Massey + root search over the block's positions + a linear solve for the values. Returns the
+    /// corrected block if a word with all k syndromes zero lies within floor(k/2) substitutions of the input.
+    pub fn bd_decode_block(&self, word_hi_first: &[u8], k: usize) -> Option<Vec<u8>> {
+        let n = word_hi_first.len();
+        let t = k / 2;
+        let syn = self.syndromes(word_hi_first, k);
+        if syn.iter().all(|s| *s == 0) {
+            return Some(word_hi_first.to_vec());
+        }
+        // Berlekamp-Massey: shortest LFSR C(x) = 1 + c1 x + ... + cL x^L with sum_{i=0..L} c_i S_{j-i} = 0
+        let mut c = vec![0u8; k + 2];
+        let mut b = vec![0u8; k + 2];
+        c[0] = 1;
+        b[0] = 1;
+        let mut l = 0usize;
+        let mut m = 1usize;
+        let mut bb = 1u8;
+        for i in 0..k {
+            let mut d = syn[i];
+            for j in 1..=l {
+                d ^= self.mul(c[j], syn[i - j]);
+            }
+            if d == 0 {
+                m += 1;
+            } else if 2 * l <= i {
+                let tmp = c.clone();
+                let f = self.div(d, bb);
+                for j in 0..k + 2 - m {
+                    let v = self.mul(f, b[j]);
+                    c[j + m] ^= v;
+                }
+                l = i + 1 - l;
+                b = tmp;
+                bb = d;
+                m = 1;
+            } else {
+                let f = self.div(d, bb);
+                for j in 0..k + 2 - m {
+                    let v = self.mul(f, b[j]);
+                    c[j + m] ^= v;
+                }
+                m += 1;
+            }
+        }
+        if l == 0 || l > t || c[l] == 0 {
+            return None;
+        }
+        // roots: position idx (degree n-1-idx) is in error iff C(alpha^-(n-1-idx)) == 0
+        let mut locs: Vec<usize> = Vec::new();
+        for idx in 0..n {
+            let deg = n - 1 - idx;
+            let xinv = self.alpha_pow((255 - deg % 255) % 255);
+            let mut acc = 0u8;
+            for j in (0..=l).rev() {
+                acc = self.mul(acc, xinv) ^ c[j];
+            }
+            if acc == 0 {
+                locs.push(idx);
+            }
+        }
+        if locs.len() != l {
+            return None;
+        }
+        // values: sum_i e_i X_i^j = S_j, j = 1..l
+        let mut mat = vec![0u8; l * l];
+        for j in 0..l {
+            for (i, idx) in locs.iter().enumerate() {
+                let deg = n - 1 - *idx;
+                mat[j * l + i] = self.alpha_pow((deg * (j + 1)) % 255);
+            }
+        }
+        let vals = self.solve(&mat, &syn[..l], l)?;
+        let mut out = word_hi_first.to_vec();
+        for (i, idx) in locs.iter().enumerate() {
+            if vals[i] == 0 {
+                return None;
+            }
+            out[*idx] ^= vals[i];
+        }
+        if self.syndromes(&out, k).iter().any(|s| *s != 0) {
+            return None;
+        }
+        Some(out)
     }
 }
